@@ -382,10 +382,12 @@ PROPS = {
               'Tuple, Struct, Variant and Array arms of specialize are contracted structurally - a variable head becomes one wildcard per field type, a '
               'pattern of the same constructor (same variant name) is replaced by its sub-patterns, in both cases followed by the rest of the '
               'row, every other head drops the row; a struct pattern (fields in any order, with or without `..`) contributes one column per field of the struct in '
-              'definition order - its pattern for that field, a wildcard where it has none. NOT under contract: the usefulness recursion (usefulness, split_ctor) that composes these steps, the '
+              'definition order - its pattern for that field, a wildcard where it has none. (6) reported missing cases: the loop body of usefulness that puts a constructor back around a witness row '
+              '(lifted) wraps exactly the columns of the constructor\'s own fields - none for a literal, range, unit variant or array - and keeps every other column of the row in order. NOT under contract: the usefulness recursion (usefulness, split_ctor) that composes these steps, the '
               'lowering of struct / enum patterns, parsing: as the labelled bounded stand-in, random and directed arm lists over 14 '
               'scrutinee types (incl. bounds outside the type, empty and inverted ranges) are decided on the real checker and compared with brute-force '
-              'enumeration (accepted exactly when every value is matched; every accepted match compiled and evaluated against the first matching arm).',
+              'enumeration (accepted exactly when every value is matched; every accepted match compiled and evaluated against the first matching arm; for a rejected '
+              'match every reported missing case must be a pattern of the scrutinee type that denotes at least one value and only values no arm matches).',
         note='Trusted: <[T]>::sort_unstable returns a sorted permutation and Vec::dedup keeps the same elements and makes a sorted vector strictly increasing '
              '(assume_specification + two admitted axioms for u128 / i128); iter_collect (R11) returns the collected tail; unsigned_as_wires / signed_as_wires '
              'return the constant wires of the low bits (external_body; bit layout of unsigned_to_bits / signed_to_bits proved by the C09 Kani harnesses); '
@@ -393,7 +395,7 @@ PROPS = {
              '"bounds fit the width" are preconditions of the lowering arms (established by pattern typing, whose call of expect_pattern_in_range is not '
              'under contract); the iterator chains of specialize over the opaque tail iterator collect to "the elements, then the tail" (R36, external_body helpers); '
              'Option::as_deref().unwrap_or_default() (R37); derived Clone of Type / Pattern returns an equal value; String equality through vstd (clauses stated under '
-             'obeys_eq_spec); an or-pattern with a guard is split into two arms (R38); vstd; rules R0, R5, R5c, R7, R10, R11. Oracle of the bounded part: the pattern matcher in replay/src/c08.rs.',
+             'obeys_eq_spec); an or-pattern with a guard is split into two arms (R38); Iterator::find by field name (R39), once(..).chain(..).collect() and iter().zip(..).map(..).collect() of the witness reassembly (R40, external_body helpers); derived Clone of ConstExpr; vstd; rules R0, R5, R5c, R7, R10, R11. Oracle of the bounded part: the pattern matcher in replay/src/c08.rs.',
         title='match on integers: pattern bounds checked against the type, constructor splitting covers / is homogeneous, specialize and the lowering of '
               'literal and range patterns exact, specialization by structured constructors, first matching clause decides (proved); usefulness recursion and lowering of structured patterns by bounded differential',
         unverified=['usefulness, split_ctor (the recursion over pattern stacks that composes splitting and specialization): bounded differential only',
